@@ -68,7 +68,20 @@ def prop_wolf(case):
         if outside:
             label("rejected-outside-range")
         else:
-            label("rejected-inside-range")   # parameters within [-1,1]^4 for which no unitary matrix exists
+            # parameters within [-1,1]^4 may only be refused when no unitary matrix exists for them, i.e. when the
+            # implied |V_ub| = |A lambda^3 (rho+i eta) sqrt(1-A^2 lambda^4)/(sqrt(1-lambda^2)(1-A^2 lambda^4 (rho+i eta)))|
+            # exceeds 1 (independent evaluation of the SLHA-2 / PDG relation)
+            lam, A, rho, eta = w
+            try:
+                z = complex(rho, eta)
+                v13 = abs(A * lam ** 3 * z * math.sqrt(1 - A ** 2 * lam ** 4)
+                          / (math.sqrt(1 - lam ** 2) * (1 - A ** 2 * lam ** 4 * z)))
+            except (ZeroDivisionError, ValueError, OverflowError):
+                v13 = math.inf
+            if v13 <= 1.0 - 1e-9:
+                return Fail("admissible Wolfenstein input for which a unitary matrix exists is rejected", w=w, V_ub=v13,
+                            msg=r.get("excmsg"))
+            label("rejected-inside-range")
         return None
     if outside:
         return Fail("Wolfenstein parameter outside [-1,1] accepted", w=w)
@@ -323,16 +336,16 @@ def nt_wolf(case):
 
 def subchecks(ctx):
     return [
-        Sub("wolfenstein", wolf_case(), prop_wolf, {"quick": 600, "thorough": 20000}, nontrivial=nt_wolf,
+        Sub("wolfenstein", wolf_case(), prop_wolf, {"quick": 2400, "thorough": 20000}, nontrivial=nt_wolf,
             classes=lambda c: ["outside" if any(not (abs(x) <= 1) for x in c["w"]) else "inside"],
             rule="Wolfenstein parameters inside, at the edge of and outside [-1,1]^4"),
-        Sub("angles", angle_case(), prop_angles, {"quick": 300, "thorough": 10000}, nontrivial=lambda c: True,
+        Sub("angles", angle_case(), prop_angles, {"quick": 900, "thorough": 10000}, nontrivial=lambda c: True,
             rule="mixing angles and phase"),
-        Sub("ew", ew_case(), prop_ew, {"quick": 300, "thorough": 10000}, nontrivial=lambda c: c["mw"] / c["mz"] > 0.999 or c["mw"] / c["mz"] < 0.3,
+        Sub("ew", ew_case(), prop_ew, {"quick": 900, "thorough": 10000}, nontrivial=lambda c: c["mw"] / c["mz"] > 0.999 or c["mw"] / c["mz"] < 0.3,
             rule="SM input; derived electroweak quantities against their defining relations"),
-        Sub("running", run_case(), prop_run, {"quick": 200, "thorough": 8000},
+        Sub("running", run_case(), prop_run, {"quick": 600, "thorough": 8000},
             nontrivial=lambda c: c["q"] < c["mb"] or c["q"] > 1e5 or c["as"] in (0.05, 0.3), known_match=known_match,
             rule="running top, bottom, tau masses: positivity, monotonicity, composition, boundary values, reference"),
-        Sub("bypass", bypass_case(), prop_bypass, {"quick": 150, "thorough": 4000}, nontrivial=lambda c: True,
+        Sub("bypass", bypass_case(), prop_bypass, {"quick": 450, "thorough": 4000}, nontrivial=lambda c: True,
             rule="THDM Yukawa getters with running couplings off / on"),
     ]
